@@ -348,6 +348,81 @@ func c04LongTxn(s shape, r *vx.Rand) {
 	w.Quiesce(scenarioTimeout)
 }
 
+// c04BeatFaults: a pessimistic transaction stays open while every other heart-beat FAILS in a non-fatal way (the request is
+// answered without a body: sendTxnHeartBeat returns an error, the ttl manager goes on) — isolated failures, never two in a
+// row — until well over ten of them have happened; then it stays open for a few more periods: heart-beats must continue
+// (`audit heartbeat` asks for two more executed ones after the 11th failure), a foreign locker must find the primary alive,
+// and the transaction commits.
+func c04BeatFaults(s shape, r *vx.Rand) {
+	old := atomic.SwapUint64(&transaction.ManagedLockTTL, 20)
+	defer atomic.StoreUint64(&transaction.ManagedLockTTL, old)
+	s.pess = true
+	sr := startShape(s, r)
+	w := sr.w
+	defer w.Close()
+	if !sr.ok || !sr.prepared {
+		return
+	}
+	a := sr.a
+	g := w.Gate()
+	var seen, fails, succ, succAt11 atomic.Int32
+	failEvery := 2 + r.Intn(2) // every 2nd or 3rd heart-beat fails
+	g.AddFault(&hub.Fault{Kind: hub.NoBody, Client: a, Label: "beat-fails", Repeat: true,
+		Match: func(kind, cmd string) bool {
+			if kind != "heartbeat" {
+				return false
+			}
+			if int(seen.Add(1))%failEvery != 0 {
+				return false
+			}
+			if fails.Add(1) == 11 {
+				succAt11.Store(succ.Load())
+			}
+			return true
+		}})
+	g.AddFault(&hub.Fault{Kind: hub.Topo, Client: a, Label: "beat", Repeat: true,
+		Match: func(kind, cmd string) bool { return kind == "heartbeat" },
+		Do:    func(*hub.World) { succ.Add(1) }})
+	rec.Count("c04:beat-faults")
+	ok := waitUntil(5*time.Second, func() bool {
+		if fails.Load() >= 11 {
+			return true
+		}
+		if seen.Load()%4 == 0 {
+			w.AdvanceClock(1)
+		}
+		return false
+	})
+	if ok {
+		// a few more periods (more failures among them)
+		more := int32(2 + r.Intn(3))
+		waitUntil(time.Second, func() bool { return succ.Load() >= succAt11.Load()+more })
+		w.AuditHeartbeat(a, int(succAt11.Load()+more))
+		// a foreign locker right after a heart-beat: the primary is alive
+		base := succ.Load()
+		w.AdvanceClock(int64(5 + r.Intn(10)))
+		if waitUntil(time.Second, func() bool { return succ.Load() > base }) {
+			b := w.NewClient("b")
+			pk := s.keys[s.primary]
+			if !runAll(w, scenarioTimeout, func() {
+				b.Begin(true, "2pc")
+				b.Lock([][]byte{pk}, "n")
+				b.Rollback()
+			}) {
+				return
+			}
+			w.AuditHeld(a, [][]byte{pk})
+		}
+	} else {
+		rec.Count("c04:beat-faults:too-few-heartbeats")
+	}
+	if _, ret := sr.final(); !ret {
+		return
+	}
+	time.Sleep(15 * time.Millisecond)
+	w.Quiesce(scenarioTimeout)
+}
+
 func runC04() {
 	nShapes := 1500
 	if run.Thorough() {
@@ -382,6 +457,14 @@ func runC04() {
 		if n%3 == 1 {
 			c04PessProgram(n%(30*thin) == 1, r.Fork())
 			rec.Count("c04:family:pess-program")
+		}
+		if n%(150*thin) == 11 {
+			c04BeatFaults(genShape(r), r.Fork())
+			rec.Count("c04:family:beat-faults")
+		}
+		if n%(15*thin) == 5 {
+			slowOwnerScenario(r.Fork())
+			rec.Count("c04:family:slow-owner")
 		}
 		if n%(10*thin) == 3 {
 			ls := genShape(r)
